@@ -58,6 +58,10 @@ def recipes(cg, c, r, tmpdir):
     R["tx.strip_blackboxes"] = lambda: T.strip_blackboxes(c, r.choice([None, "clk", ["d"]]))
     R["tx.relabel"] = lambda: T.relabel(c, {n1: n1 + "_r"})
     R["tx.subcircuit"] = lambda: T.subcircuit(c, some, modify_io=r.random() < 0.5)
+    R["tx.subcircuit_all"] = lambda: T.subcircuit(c, nodes)
+    R["tx.subcircuit_all_io"] = lambda: T.subcircuit(c, set(nodes), modify_io=True)
+    R["tx.sensitization_transform_sinks"] = lambda: T.sensitization_transform(c, n0, [o for o in outs if not c.fanout(o)] or None)
+    R["props.influence_supergates"] = lambda: cg.props.influence(c, n0, supergates=True, approx=False)
     R["tx.ternary"] = lambda: T.ternary(c)
     R["tx.miter"] = lambda: T.miter(c)
     R["tx.miter2"] = lambda: T.miter(c, c.copy(), startpoints=set(ins[:1]) or None, endpoints=set(outs[:1]) or None)
@@ -195,6 +199,7 @@ def make_circuit(ctx, r, variant):
         nx.relabel_nodes(c.graph, {n: "\\" + n + "[1]" for n in list(c.graph.nodes) if n.startswith("n") and r.random() < 0.4}, copy=False)
     if variant % 2 == 0:
         gen.add_flops(r, c, r.randint(1, 2))
+    c.name = ["rc", "c17-opt", "alu.v2", "top"][variant % 4]      # names that are not plain identifiers too
     if variant % 3 == 0:
         # circuits wrapped around a raw graph (or read by the fast parser) lack the optional `output` attribute
         for n in list(c.graph.nodes):
